@@ -720,6 +720,11 @@ func genCase(r *rand.Rand) Case {
 	g := gen.Generate(r, prof)
 	c.Text = g.Prog.Text()
 	c.In = g.In
+	if r.IntN(40) == 0 {
+		// a program of zero statements is a program: the library returns an empty result
+		g.Prog = gen.Program{Trailer: core.Pick(r, []string{"", " ", "\t", "// nothing to do"})}
+		c.Text = core.Pick(r, []string{"", "\n", "  \n\n", g.Prog.Text()})
+	}
 	// every kind of run-time failure must travel through the CLI: reuse the labelled
 	// defects of the C12 engine (only their effect matters here, not their labels)
 	if r.IntN(3) == 0 {
